@@ -602,15 +602,41 @@ func c19(c *Ctx) {
 	if ct := c.P.Func("timesafeguard.collectTime"); ct != nil && ct.Body() != nil && gst != nil {
 		info := ct.Info()
 		n := 0
+		// the measuring code: the goroutine's literal, or a named function of the package started with `go`
+		type body struct {
+			g    *cfgx.Graph
+			root ast.Node
+		}
+		var bodies []body
 		for _, lit := range funcLitsIn(ct.Body()) {
-			lg := c.LitGraph(ct.Name()+"$go", lit, info)
+			bodies = append(bodies, body{c.LitGraph(ct.Name()+"$go", lit, info), lit})
+		}
+		ast.Inspect(ct.Body(), func(nd ast.Node) bool {
+			if gs, ok := nd.(*ast.GoStmt); ok {
+				if fn := astx.Callee(info, gs.Call); fn != nil {
+					if h := c.P.FuncOf(fn); h != nil && h.Body() != nil && load.ShortPkg(h.Pkg.PkgPath) == "timesafeguard" {
+						bodies = append(bodies, body{c.Graph(h), h.Node()})
+					}
+				}
+			}
+			return true
+		})
+		resT := c.P.Named("timesafeguard", "timeResult")
+		for _, b := range bodies {
+			lg, lit := b.g, b.root
 			isSlot := func(x int) bool {
 				as, ok := lg.V[x].Node.(*ast.AssignStmt)
 				if !ok || len(as.Lhs) != 1 {
 					return false
 				}
-				_, isIdx := ast.Unparen(as.Lhs[0]).(*ast.IndexExpr)
-				return isIdx
+				switch l := ast.Unparen(as.Lhs[0]).(type) {
+				case *ast.IndexExpr:
+					return true
+				case *ast.StarExpr:
+					// *slot = result through a *timeResult parameter
+					return resT != nil && astx.NamedOf(info.TypeOf(l)) == resT
+				}
+				return false
 			}
 			for _, v := range lg.V {
 				for _, e := range v.Succ {
